@@ -37,7 +37,11 @@ Names == <<
   (* 15 *) N(<<<<195, 169>>, <<255, 1>>, cd>>, FALSE),             \* non-ASCII / control bytes
   (* 16 *) N(<<X(120, 63), X(121, 63), X(122, 63), X(119, 50)>>, FALSE),   \* fits alone, not with a search domain
   (* 17 *) N(<<<<92, 48, 52, 54>>, cd>>, FALSE),                   \* "\046.cd": escapes are not interpreted
-  (* 18 *) N(<<<<97>>, <<98>>, <<99>>, <<100>>>>, FALSE)            \* "a.b.c.d"
+  (* 18 *) N(<<<<97>>, <<98>>, <<99>>, <<100>>>>, FALSE),           \* "a.b.c.d"
+  (* 19 *) N(<<ab, X(120, 64)>>, FALSE),                          \* 64-byte label in final position
+  (* 20 *) N(<<X(121, 64)>>, FALSE),                              \* a single 64-byte label
+  (* 21 *) N(<<ab, X(120, 63)>>, FALSE),                          \* 63-byte label in final position (valid)
+  (* 22 *) N(<<ab, X(120, 64)>>, TRUE)                            \* 64-byte label before a trailing dot
 >>
 s1 == <<<<115, 49>>, <<101, 120, 97, 109, 112, 108, 101>>>>      \* s1.example
 s2 == <<<<115, 50>>, <<101, 120, 97, 109, 112, 108, 101>>>>
